@@ -14,6 +14,7 @@ package unary
 // output vector per input vector. Batches are served whether or not Series() was called first: the
 // workers are started (and the series loaded) on the first call of either.
 //@ func (*unaryNegation).loadSeries
+//@   at labels.(*Builder).Labels assert[C17] result-labels-are-built-into-fresh-memory: isnil($res)
 //@   requires u != nil && ctx != nil && u.next != nil
 //@   panics may
 //@   assigns unary.unaryNegation.series, ghost started
